@@ -7,7 +7,7 @@ CONSTANTS
   ReadSizes <- ReadsQ
   EofStyles = {"separate"}
   CutAll = FALSE
-  FixEof = FALSE
+  FixEof = TRUE
   FixShort = FALSE
   Tag = 11
   Crafted <- CraftedSet
